@@ -42,6 +42,7 @@ type Thread struct {
 	what    string // description of pending point (debug)
 	waitObj uintptr
 	killed     bool
+	lazy       bool
 	born       int // scheduling step at which the thread was created
 	wasEnabled bool  // enabled at the previous scheduling step
 	stamp      int64 // step at which the thread last became enabled
@@ -585,12 +586,12 @@ func (x *Exec) exit(t *Thread) {
 // of what the running thread did - a wakee - is what a real scheduler tends to run next), ties by ascending id.
 func (x *Exec) enabledNormal(me *Thread, buf []*Thread) []*Thread {
 	buf = buf[:0]
-	if me != nil && me.idleTo < 0 && (me.ready == nil || me.ready()) {
+	if me != nil && me.idleTo < 0 && !me.lazy && (me.ready == nil || me.ready()) {
 		buf = append(buf, me)
 	}
 	first := len(buf)
 	for _, t := range x.threads {
-		if t == me || t.done || t.idleTo >= 0 {
+		if (t == me && !me.lazy) || t.done || t.idleTo >= 0 {
 			continue
 		}
 		if t.ready == nil || t.ready() {
@@ -604,12 +605,34 @@ func (x *Exec) enabledNormal(me *Thread, buf []*Thread) []*Thread {
 		}
 	}
 	// insertion sort of the tail by (stamp desc, id asc); the lists are tiny
+	before := func(a, b *Thread) bool {
+		if a.lazy != b.lazy {
+			return !a.lazy // lazy threads (faults, closers "at any moment") come last
+		}
+		if a.stamp != b.stamp {
+			return a.stamp > b.stamp
+		}
+		return a.ID < b.ID
+	}
 	for i := first + 1; i < len(buf); i++ {
-		for j := i; j > first && (buf[j].stamp > buf[j-1].stamp || (buf[j].stamp == buf[j-1].stamp && buf[j].ID < buf[j-1].ID)); j-- {
+		for j := i; j > first && before(buf[j], buf[j-1]); j-- {
 			buf[j], buf[j-1] = buf[j-1], buf[j]
 		}
 	}
 	return buf
+}
+
+// AnyMoment marks the calling thread as one whose next action may happen at any moment (a fault, a Close racing with
+// traffic): by default it runs only when nothing else can run, and taking it earlier, at any scheduling step, is
+// exactly one deviation. Returns at the chosen moment.
+func AnyMoment() {
+	x := X
+	if x == nil || x.cur == nil {
+		return
+	}
+	x.cur.lazy = true
+	x.point("any-moment", nil)
+	x.cur.lazy = false
 }
 
 // schedule picks the next thread. me == nil means the caller is exiting.
